@@ -195,3 +195,26 @@ Proof.
     destruct (frun l s os).
     destruct (sys_run l (mkSys (f_life s) (f_st s)) (coarsen (f_life s) (f_fly s) os)). exact IH.
 Qed.
+
+(* single writer: mustRefuse / lastGCDone change only when the (one) check in flight completes —
+   at its end, or inside the last Shutdown that waits for it.  Start, a non-last Shutdown, the
+   beginning of a check and queries never write them. *)
+Lemma fine_only_checker_writes_l l s o :
+  f_st (fst (fstep l s o)) <> f_st s ->
+  exists t, f_fly s = Some t /\ f_st (fst (fstep l s o)) = fst (check l (f_st s) t) /\
+            (o = FEnd \/ (o = FShutdown /\ refcnt (f_life s) = 1)).
+Proof.
+  destruct o as [| |t'| |]; cbn [fstep].
+  - destruct (life_step (f_life s) LStart). cbn [fst f_st]. intros N. exfalso. apply N. reflexivity.
+  - destruct (life_step (f_life s) LShutdown) as [lf e].
+    destruct (refcnt (f_life s) =? 1) eqn:E1.
+    + destruct (f_fly s) as [t|]; cbn [fst f_st].
+      * intros _. exists t. split; [reflexivity|]. split; [reflexivity|]. right. split; [reflexivity|lia].
+      * intros N. exfalso. apply N. reflexivity.
+    + cbn [fst f_st]. intros N. exfalso. apply N. reflexivity.
+  - destruct (f_fly s); [|destruct (checking (f_life s))]; cbn [fst f_st]; intros N; exfalso; apply N; reflexivity.
+  - destruct (f_fly s) as [t|]; cbn [fst f_st].
+    + intros _. exists t. split; [reflexivity|]. split; [reflexivity|]. left. reflexivity.
+    + intros N. exfalso. apply N. reflexivity.
+  - cbn [fst]. intros N. exfalso. apply N. reflexivity.
+Qed.
